@@ -13,6 +13,12 @@ CHECKS = {
     "C09": dict(text="Bounded symbolic model checking of the real get_freev + subspace_minimization (alone from an arbitrary feasible Cauchy point, and after the real get_cauchy_point), n=2 (thorough n=3), m<=1 (thorough m=2): result equals the box-truncated Newton point of the dense model, active variables fixed, in the box, model not increased, descent direction.",
                 note="Trusted: symx shim incl. its Cholesky/triangular-solve/Gaussian elimination over exact terms (witness-replayed on the real code each run), z3. Memory pairs are concrete rational instances; exact real arithmetic.",
                 tech="DSE over the real source + z3 QF_NRA per path with rational-function normal forms; oracle = truncated Newton point with dense B", ref="DESIGN.md C09"),
+    "C10": dict(text="Bounded symbolic model checking of the real update_lbfgs_matrices / update_X_and_G / form_invMfactors / bmv: (a) one update from an arbitrary valid memory state (inductive step for the deque discipline, curvature test, rejection is a no-op), (b) compact representation = dense BFGS recursion, symmetric, PD, secant, theta, with symbolic correction pairs. Identities are decided on rational-function normal forms, inequalities by z3.",
+                note="Trusted: symx shim (Cholesky and triangular solves over exact terms with algebraic square-root atoms), sympy polynomial gcd, z3. m>=2: older pairs are concrete instances; PD for m>=2 only on the family y = A s.",
+                tech="DSE over the real source; normal-form identity + z3 QF_NRA; inductive step from an arbitrary valid state", ref="DESIGN.md C10"),
+    "C19": dict(text="For each of the eight benchmark pairs and each n up to the bound, the real f is executed on a symbolic x, the resulting term is differentiated by rule and compared with the real f_grad for all x in the domain: an identity of normal forms (polynomial pairs, Rastrigin) or a z3 query with sin/cos/exp uninterpreted (Ackley, Griewank).",
+                note="Trusted: symx shim, the differentiation rules in symx/diff.py (cross-checked every run against a Richardson derivative of the real functions at the path witnesses), z3.",
+                tech="symbolic execution + term-level differentiation; normal-form identity / z3 QF_NRA with Ackermannised transcendental functions", ref="DESIGN.md C19"),
 }
 
 
